@@ -3,7 +3,7 @@
    MultiReader(rewind, r) (IO/IO.v), tied to the Go code by the correspondence stream meta_load
    (outcome, bytes pulled, replay verdict under every schedule and failure point). *)
 From Coq Require Import List NArith. From Coq Require Import Strings.Byte.
-From PrismV Require Import IO.IO IO.IOTheory IO.Parse Meta.Meta Meta.MetaProofs.
+From PrismV Require Import IO.IO IO.IOTheory IO.Drain IO.Parse Meta.Meta Meta.MetaProofs.
 
 (* whatever the parser is, whatever it returns (success, error, or a panic turned into an error),
    whatever the schedule, EOF style, failure point and MultiReader nesting of the source:
@@ -25,3 +25,15 @@ Theorem C07_auto_replay : forall inflate fuel r,
   src_data (snd (auto_load inflate fuel r)) = src_data r /\ src_end (snd (auto_load inflate fuel r)) = src_end r.
 Proof. exact auto_replays_everything. Qed.
 Print Assumptions C07_auto_replay.
+
+(* in the caller's terms: src_data/src_end ARE what reading to the end observes (io.ReadAll-style drain,
+   for every schedule, failure point and nesting), so draining the returned stream equals draining the
+   original source *)
+Theorem C07_read_all_observes : forall s, read_all s = (src_data s, src_end s).
+Proof. exact read_all_spec. Qed.
+Print Assumptions C07_read_all_observes.
+
+Theorem C07_drained_replay_equals_drained_source : forall inflate (A : Type) (p : prog A) (r : src),
+  read_all (snd (fst (load inflate p r))) = read_all r.
+Proof. exact load_then_read_all. Qed.
+Print Assumptions C07_drained_replay_equals_drained_source.
